@@ -107,7 +107,7 @@ class Sim:
     def read_csv(self):
         if not os.path.exists(self.csv):
             return []
-        with open(self.csv) as f:
+        with open(self.csv, newline="") as f:  # as the csv module requires: line breaks inside quoted fields stay as written
             return list(csv.DictReader(f))
 
     def state_files(self):
